@@ -142,17 +142,23 @@ def prevKey (pre p : Path) : Path := pre ++ p
 def setPrevious (pre src dst : Path) : Styles :=
   ({ edge := [(prevKey pre src, some (prevKey pre dst))] } : Styles).setNode (prevKey pre src) 2
 
-/-- what happens to a model's graph -/
+/-- what happens to a model's graph, in the order it happens.  `TransitionGraphSupport._change_state`
+is two events with the engine's state change (and every callback it runs, which may fire further
+events on the same model) in between. -/
 inductive Step
-  /-- `TransitionGraphSupport._change_state` of a transition listed in scope `pre` with the stored
-      names `src`, `dst`; `cur` = the names of `model.state` right after the state change -/
-  | change (pre src dst : Path) (cur : List Path)
+  /-- `reset_styling(); set_previous_transition(src, dst)` of a transition listed in scope `pre` with
+      the stored names `src`, `dst` -/
+  | begin (pre src dst : Path)
+  /-- `set_node_style(model.state, "active")` once the engine's `_change_state` has returned;
+      `cur` = the names of `model.state` at that moment -/
+  | finish (cur : List Path)
   /-- `_get_graph(model, force_new=True)`: add_model / add_states / add_transition / remove_transition -/
   | regen (cur : List Path)
   deriving DecidableEq, Repr, Inhabited
 
 def applyStep : Styles → Step → Styles
-  | _, .change pre src dst cur => (setPrevious pre src dst).setNodes cur 1
+  | _, .begin pre src dst => setPrevious pre src dst
+  | s, .finish cur => s.setNodes cur 1
   | _, .regen cur => ({} : Styles).setNodes cur 1
 
 /-- styles of a model's graph after its history (the graph is created with `regen init`) -/
